@@ -304,10 +304,8 @@ func engineConvert(x *X) {
 	}
 	tree0 := scanTree(root)
 	legacy0 := filepath.Join(x.root, "legacy0")
-	if ro, _ := p.Extra["ro"].(bool); ro {
-		_ = copyTree(root, legacy0)
-		defer os.RemoveAll(legacy0)
-	}
+	_ = copyTree(root, legacy0)
+	defer os.RemoveAll(legacy0)
 	// crash points of the conversion (the directory store writes; the memory store keeps the result in memory)
 	var snaps []crashSnap
 	fs := x.sim.FS
@@ -334,6 +332,7 @@ func engineConvert(x *X) {
 		}
 	}()
 	// 1. open and touch every repository: the conversion runs
+	convFrom := fs.N
 	w.open()
 	touch := func(w *World) {
 		for _, repo := range p.Repos {
@@ -342,6 +341,7 @@ func engineConvert(x *X) {
 	}
 	touch(w)
 	w.settle()
+	convOps := fs.N - convFrom
 	fs.OnMut = nil
 	x.mixs("open")
 	ref := map[string]*obs{}
@@ -474,6 +474,81 @@ func engineConvert(x *X) {
 			if !clean() {
 				break
 			}
+		}
+	}
+	// 4. every filesystem operation of the conversion (reads as well as writes) fails once with an I/O error instead of the
+	// process dying there: the same server, once storage is healthy again, and a fresh server after it must both answer like
+	// the uninterrupted conversion
+	if ro, _ := p.Extra["ro"].(bool); !ro && clean() && convOps > 0 && p.Prop != "C12" {
+		step := 1
+		if convOps > 40 {
+			step = (convOps + 39) / 40
+		}
+		off := int(splitmix(p.Seed^0xfa17) % uint64(step))
+		for j := 1 + off; j <= convOps && clean(); j += step {
+			dir := filepath.Join(x.root, fmt.Sprintf("fault-%d", j))
+			if copyTree(legacy0, dir) != nil {
+				break
+			}
+			fw := newWorld(x, p.Knobs, dir, "faulted")
+			for d := range w.m.usedDigests {
+				fw.m.usedDigests[d] = true
+			}
+			for t := range w.m.usedTags {
+				fw.m.usedTags[t] = true
+			}
+			sup := x.suppress
+			x.suppress = true
+			fs.Faults = []simrt.FaultSpec{{N: fs.N + j, Errno: "EIO", Short: -1}}
+			nf := len(fs.Fired)
+			fw.open()
+			touch(fw)
+			fw.settle()
+			fs.Faults = nil
+			x.suppress = sup
+			fired := len(fs.Fired) > nf
+			what := ""
+			if fired {
+				what = fs.FiredKinds[len(fs.FiredKinds)-1]
+			}
+			where := fmt.Sprintf("fs op #%d of the conversion failed (%s)", j, what)
+			judge := func(jw *World, who string) bool {
+				touch(jw)
+				jw.settle()
+				for _, repo := range p.Repos {
+					o := jw.observe(repo)
+					if d := obsDiff(ref[repo], o, truth[repo].wrongMT); len(d) > 0 {
+						kind, _, _ := strings.Cut(d[0], " ")
+						opk, _, _ := strings.Cut(what, ":")
+						x.viol([]string{"C17"}, "convert.error-differs", kind+" after a failed "+opk+" ("+who+")", fmt.Sprintf("%s; afterwards, with healthy storage, %s: %s answers differ from the uninterrupted conversion: %s", where, who, repo, strings.Join(d, "; ")))
+						return false
+					}
+				}
+				return true
+			}
+			ok := true
+			if fired {
+				ok = judge(fw, "the same server")
+				x.out.probe("convert-op-failed")
+			}
+			func() {
+				defer func() { _ = recover() }()
+				_ = fw.close()
+				fw.settle()
+			}()
+			if fired && ok {
+				fw2 := newWorld(x, p.Knobs, dir, "after-fault")
+				fw2.m = fw.m
+				fw2.open()
+				judge(fw2, "a fresh server")
+				func() {
+					defer func() { _ = recover() }()
+					_ = fw2.close()
+					fw2.settle()
+				}()
+			}
+			_ = os.RemoveAll(dir)
+			x.out.CrashPoints++
 		}
 	}
 	nFB, nArt := 0, 0
